@@ -139,10 +139,19 @@ def monitor(scn, sobj, rep, sf, ck):
 
 
 def msan_monitor(scn, sobj, rep, sf, ck):
+    """C02's clause is about bytes that leave the responder: only reports raised by the initialisedness check
+    inside lltd_port_send_frame are judged here (other uninitialised-value uses are C01's business)."""
     rep.count("msan_scenarios")
-    for key, txt in sf:
-        if key.startswith("msan:"):
-            rep.violation("C02:" + key, "scenario %s under MemorySanitizer:\n%s" % (scn.sid, txt), replay=sobj.text())
+    rep.count("msan_frames_checked", sum(i.out[0] for i in scn.inputs if i.out))
+    if "lltd_port_send_frame" in scn.stderr and "MemorySanitizer" in scn.stderr:
+        blk = scn.stderr[scn.stderr.index("MemorySanitizer") - 20:][:2500]
+        m = None
+        for key, txt in sf:
+            if key.startswith("msan:"):
+                m = key
+        rep.violation("C02:uninitialised-bytes-transmitted:%s" % (m.split(":")[-1] if m else "?"),
+                      "scenario %s under MemorySanitizer: a frame handed to lltd_port_send_frame contains uninitialised bytes\n%s"
+                      % (scn.sid, blk), replay=sobj.text())
 
 
 def run(ctx):
@@ -154,17 +163,20 @@ def run(ctx):
                 "distinct_nontrivial = distinct transmitted frames (by first 60 bytes and length)")
     rep.assumptions = ["'solicited' is classified from the ToS and opcode bytes of the receive buffer only",
                        "the receive-buffer tail is port-owned defined memory, identical in both runs"]
-    binary = H.build(ctx.work, "asan")
+    binary, msan, plain = H.build_many(ctx.work, [dict(flavour="asan"), dict(flavour="msan"), dict(flavour="plain")])
     scns = make_scenarios(ctx, ctx.n(2000, 40000))
     # pairs (a_i, b_i) land in the same shard: count is a multiple of the shard count
     run_monitored(ctx, binary, scns, monitor, tag="wf", nshards=16)
-    if not ctx.quick:
-        msan = H.build(ctx.work, "msan")
-        half = scns[:len(scns) // 2]
-        run_monitored(ctx, msan, half, msan_monitor, tag="msan", nshards=16)
-        rep.need("msan_scenarios", rep.counters.get("msan_scenarios", 0), 1000)
+    # the determinism pairs once more without red zones (a read the sanitizer would have stopped now reaches the wire)
+    n4 = (len(scns) // 2) // 4 // 16 * 16
+    sub = scns[:n4] + scns[len(scns) // 2:len(scns) // 2 + n4]
+    run_monitored(ctx, plain, sub, monitor, tag="wf-plain", nshards=16)
+    # MemorySanitizer: __msan_check_mem_is_initialized on every transmitted frame, allocations left poisoned
+    half = scns[:len(scns) // 2]
+    run_monitored(ctx, msan, half if not ctx.quick else half[:480], msan_monitor, tag="msan", nshards=16)
+    rep.need("msan_scenarios", rep.counters.get("msan_scenarios", 0), ctx.n(400, 1000))
     c = rep.counters
     rep.need("frames_sent_checked", c.get("frames_sent_checked", 0), 10000)
-    rep.need("determinism_pairs", c.get("determinism_pairs", 0), ctx.n(1900, 39000))
+    rep.need("determinism_pairs", c.get("determinism_pairs", 0), ctx.n(2300, 48000))
     for op in ("Hello", "Probe", "Train", "ACK", "QueryResp", "QueryLargeTlvResp"):
         rep.need("sent:" + op, c.get("sent:" + op, 0), 100)
